@@ -426,16 +426,30 @@ class Interface( NamedObject, Connectable ):
         inversed = s._dsl.inversed
 
       if inversed:
-        for name, obj in s.__dict__.items():
-          if name[0] != '_': # filter private variables
-            if isinstance( obj, Signal ):
-              # Replace the port by its inverse: the field is assigned anew
-              s._dsl.NamedObject_fields.discard( name )
-              setattr( s, name, obj.inverse() )
-            else:
-              setattr( s, name, obj )
+        s._invert_members()
 
       s._dsl.constructed = True
+
+  def _invert_members( s ):
+    # Replace every port by its inverse, also the ports held in lists and
+    # in nested interfaces (which are already constructed at this point)
+    def inv( obj ):
+      if isinstance( obj, Signal ):
+        return obj.inverse()
+      if isinstance( obj, list ):
+        new = [ inv(x) for x in obj ]
+        return new if any( x is not y for x, y in zip( new, obj ) ) else obj
+      if isinstance( obj, Interface ):
+        obj._invert_members()
+      return obj
+
+    for name, obj in list( s.__dict__.items() ):
+      if name[0] != '_': # filter private variables
+        new = inv( obj )
+        if new is not obj:
+          # the field is assigned anew
+          s._dsl.NamedObject_fields.discard( name )
+          setattr( s, name, new )
 
   # We move the connect functionality to Component
   # def connect()
